@@ -81,12 +81,20 @@ def _comment_start(line):
 
 
 def norm_N2(text, stats):
-    """|_| HpkeError::X  ->  |_e| -> (o: HpkeError) ensures o == HpkeError::X { HpkeError::X }"""
+    """|_| HpkeError::X            ->  |_e| -> (o: HpkeError) ensures o == HpkeError::X { HpkeError::X }
+       |_| HpkeError::X(a, b)      ->  same with the constructor arguments (pure expressions) repeated
+       |_| { HpkeError::X(..) }    ->  same (block body consisting of one constructor expression)
+       any other `|_|` closure only gets its parameter named (`|_e|`): Verus rejects `_` patterns"""
+    cons = r'(HpkeError::\w+(?:\((?:[^()]|\([^()]*\))*\))?)'
+
     def r(m):
         stats.add('N2')
-        p = m.group(1)
+        p = re.sub(r'\s+', ' ', m.group(1) or m.group(2)).strip()
         return '|_e| -> (o: HpkeError) ensures o == %s { %s }' % (p, p)
-    return re.sub(r'\|_\|\s*(HpkeError::\w+)', r, text)
+    text = re.sub(r'\|_\|\s*(?:\{\s*' + cons + r'\s*\}|' + cons + r')', r, text)
+    text, n = re.subn(r'\|_\|', '|_e|', text)
+    stats.add('N2', n)
+    return text
 
 
 class FileSplice:
